@@ -445,8 +445,8 @@ theorem fmtFixed3_of_WF (env : FloatEnvelope3) {f : F64} (h : WFFrameRate f) :
 
 /-- line breaks (and any other non-numeric, non-key character that the strings exclude) do
     not occur in the attribute list of a variant -/
-theorem variantAttrs_free (env : FloatEnvelope3) {v : Variant} (h : WFVariant v) {c : Char}
-    (hd : isDigit c = false) (h2 : c ≠ '.') (h3 : c ≠ '-') (hk : ∀ k ∈ variantKeys, c ∉ k)
+theorem variantAttrs_free {v : Variant} (h : WFVariant v) {c : Char}
+    (hd : isDigit c = false) (h2 : c ∉ floatTextChars) (hk : ∀ k ∈ variantKeys, c ∉ k)
     (hs : ∀ s : Str, QuotedOK s → c ∉ s) (hu : ∀ s : Str, UnquotedOK s → c ∉ s) (hcomma : c ≠ ',') :
     AllAttrs (AttrFree c) (variantAttrs v) := by
   obtain ⟨⟨hb0, hb1⟩, hab, hcne, hcs, huri, hres, hfr, hvi, hau, hsu, hcc⟩ := h
@@ -463,24 +463,23 @@ theorem variantAttrs_free (env : FloatEnvelope3) {v : Variant} (h : WFVariant v)
     exact joinByte_no_mem hcomma (fun x hx => hs x (hcs x hx).1)
   · exact AllAttrs_optAttr (fun _ => ⟨hkk _ (by simp [variantKeys]), hu _ hres⟩)
   · refine AllAttrs_optAttrO (OptAll_imp hfr (fun f hf => ⟨hkk _ (by simp [variantKeys]), ?_⟩))
-    obtain ⟨k, _, _, hfmt⟩ := fmtFixed3_of_WF env hf
-    simp only [AttrVal.raw]; rw [hfmt]; exact not_mem_decInt hd h2 h3
+    simp only [AttrVal.raw]; exact not_mem_fmtFixed hd h2
   · exact AllAttrs_optAttr (fun _ => ⟨hkk _ (by simp [variantKeys]), hs _ hvi⟩)
   · exact AllAttrs_optAttr (fun _ => ⟨hkk _ (by simp [variantKeys]), hs _ hau⟩)
   · exact AllAttrs_optAttr (fun _ => ⟨hkk _ (by simp [variantKeys]), hs _ hsu⟩)
   · exact AllAttrs_optAttr (fun _ => ⟨hkk _ (by simp [variantKeys]), hs _ hcc⟩)
 
-theorem variantAttrs_no_nl (env : FloatEnvelope3) {v : Variant} (h : WFVariant v) :
+theorem variantAttrs_no_nl {v : Variant} (h : WFVariant v) :
     '\n' ∉ renderAttrs (variantAttrs v) :=
   not_mem_renderAttrs (by decide) (by decide) (by decide)
-    (variantAttrs_free env h (by decide) (by decide) (by decide) (by decide) (fun s hs => hs.2.1) (fun s hs => hs.2.1) (by decide))
+    (variantAttrs_free h (by decide) (by decide) (by decide) (fun s hs => hs.2.1) (fun s hs => hs.2.1) (by decide))
 
-theorem variantAttrs_no_cr (env : FloatEnvelope3) {v : Variant} (h : WFVariant v) :
+theorem variantAttrs_no_cr {v : Variant} (h : WFVariant v) :
     '\r' ∉ renderAttrs (variantAttrs v) :=
   not_mem_renderAttrs (by decide) (by decide) (by decide)
-    (variantAttrs_free env h (by decide) (by decide) (by decide) (by decide) (fun s hs => hs.2.2) (fun s hs => hs.2.2.1) (by decide))
+    (variantAttrs_free h (by decide) (by decide) (by decide) (fun s hs => hs.2.2) (fun s hs => hs.2.2.1) (by decide))
 
-theorem WFAttrs_variantAttrs (env : FloatEnvelope3) {v : Variant} (h : WFVariant v) : WFAttrs (variantAttrs v) := by
+theorem WFAttrs_variantAttrs {v : Variant} (h : WFVariant v) : WFAttrs (variantAttrs v) := by
   obtain ⟨⟨hb0, hb1⟩, hab, hcne, hcs, huri, hres, hfr, hvi, hau, hsu, hcc⟩ := h
   unfold variantAttrs
   refine WFAttrs_append (WFAttrs_append (WFAttrs_append (WFAttrs_append (WFAttrs_append (WFAttrs_append
@@ -494,10 +493,7 @@ theorem WFAttrs_variantAttrs (env : FloatEnvelope3) {v : Variant} (h : WFVariant
   · exact WFAttrs_cons (WFAttr_quoted (by decide) (joinByte_no_mem (by decide) (fun x hx => (hcs x hx).1.1))) WFAttrs_nil
   · exact WFAttrs_optAttr (fun _ => WFAttr_unquoted (by decide) hres.1 hres.2.2.2)
   · refine WFAttrs_optAttrO (OptAll_imp hfr (fun f hf => ?_))
-    obtain ⟨k, _, _, hfmt⟩ := fmtFixed3_of_WF env hf
-    refine WFAttr_unquoted (by decide) ?_ ?_
-    · rw [hfmt]; exact not_mem_decInt (by decide) (by decide) (by decide)
-    · rw [hfmt]; exact decInt_head (by decide) (by decide) (by decide)
+    exact WFAttr_unquoted (by decide) (not_mem_fmtFixed (by decide) (by decide)) (fmtFixed_head (by decide) (by decide))
   · exact WFAttrs_optAttr (fun _ => WFAttr_quoted (by decide) hvi.1)
   · exact WFAttrs_optAttr (fun _ => WFAttr_quoted (by decide) hau.1)
   · exact WFAttrs_optAttr (fun _ => WFAttr_quoted (by decide) hsu.1)
@@ -518,8 +514,8 @@ theorem getD_ite_nil'' (s : Str) : (if s = [] then none else some s : Option Str
 /-- EXT-X-STREAM-INF + URI line: `unmarshal` inverts `marshal` on every field. -/
 theorem Variant.unmarshal_render (env : FloatEnvelope3) {v : Variant} (h : WFVariant v) :
     Variant.unmarshal (renderAttrs (variantAttrs v) ++ '\n' :: v.uri) = .ok v := by
-  have hwf := WFAttrs_variantAttrs env h
-  have hnl := variantAttrs_no_nl env h
+  have hwf := WFAttrs_variantAttrs h
+  have hnl := variantAttrs_no_nl h
   unfold Variant.unmarshal
   have huri := h.2.2.2.2.1
   rw [splitByte_append _ hnl, splitByte_not_mem huri.2.2.1]
@@ -743,9 +739,9 @@ theorem clean_rendition_line {r : Rendition} (h : WFRendition r) :
   · exact not_mem_renderAttrs (by decide) (by decide) (by decide)
       (renditionAttrs_free h (by decide) (by decide) (by decide) (fun s hs => hs.2.2))
 
-theorem clean_variant_line (env : FloatEnvelope3) {v : Variant} (h : WFVariant v) :
+theorem clean_variant_line {v : Variant} (h : WFVariant v) :
     CleanLine (tagStreamInf ++ renderAttrs (variantAttrs v)) :=
-  clean_append (by decide) ⟨variantAttrs_no_nl env h, variantAttrs_no_cr env h⟩
+  clean_append (by decide) ⟨variantAttrs_no_nl h, variantAttrs_no_cr h⟩
 
 theorem clean_uri {v : Variant} (h : WFVariant v) : CleanLine v.uri := ⟨h.2.2.2.2.1.2.2.1, h.2.2.2.2.1.2.2.2⟩
 
@@ -754,19 +750,17 @@ theorem clean_version_line {v : Int} (h : 0 ≤ v) : CleanLine (tagVersion ++ fo
   rw [formatInt_nonneg h]
   exact ⟨not_mem_natToDigits (by decide), not_mem_natToDigits (by decide)⟩
 
-theorem clean_start_line (env : FloatEnvelope) {t : Start} (h : WFStart t) :
-    CleanLine (tagStart ++ renderAttrs (startAttrs t)) := by
-  obtain ⟨q, d', hfmt, _⟩ := start_envelope env h
-  have hfree : ∀ c : Char, isDigit c = false → c ≠ '.' → c ≠ '-' → c ∉ kTimeOffset →
+theorem clean_start_line (t : Start) : CleanLine (tagStart ++ renderAttrs (startAttrs t)) := by
+  have hfree : ∀ c : Char, isDigit c = false → c ∉ floatTextChars → c ∉ kTimeOffset →
       AllAttrs (AttrFree c) (startAttrs t) := by
-    intro c h1 h2 h3 h4
+    intro c h1 h2 h4
     unfold startAttrs
     refine AllAttrs_cons ⟨h4, ?_⟩ AllAttrs_nil
-    simp only [AttrVal.raw]; rw [hfmt]
-    exact not_mem_decInt h1 h2 h3
+    simp only [AttrVal.raw]
+    exact not_mem_durFmt5 h1 h2
   refine clean_append (by decide) ⟨?_, ?_⟩
-  · exact not_mem_renderAttrs (by decide) (by decide) (by decide) (hfree _ (by decide) (by decide) (by decide) (by decide))
-  · exact not_mem_renderAttrs (by decide) (by decide) (by decide) (hfree _ (by decide) (by decide) (by decide) (by decide))
+  · exact not_mem_renderAttrs (by decide) (by decide) (by decide) (hfree _ (by decide) (by decide) (by decide))
+  · exact not_mem_renderAttrs (by decide) (by decide) (by decide) (hfree _ (by decide) (by decide) (by decide))
 
 def AllClean (ls : List Str) : Prop := ∀ l ∈ ls, CleanLine l
 
@@ -798,7 +792,7 @@ theorem AllClean_flatMap2 {α} {xs : List α} {f g : α → Str} (h : ∀ x ∈ 
     have hx := h x (by simp)
     exact AllClean_append (AllClean_cons hx.1 (AllClean_cons hx.2 AllClean_nil)) (ih (fun y hy => h y (by simp [hy])))
 
-theorem clean_marshalLines (env : FloatEnvelope) (env3 : FloatEnvelope3) {p : Multivariant} (h : WFMultivariant p) :
+theorem clean_marshalLines {p : Multivariant} (h : WFMultivariant p) :
     AllClean (marshalLines p) := by
   obtain ⟨⟨hv0, hv1⟩, hst, hne, hvs, hrs⟩ := h
   unfold marshalLines
@@ -810,13 +804,13 @@ theorem clean_marshalLines (env : FloatEnvelope) (env3 : FloatEnvelope3) {p : Mu
   · split
     · rename_i st hs
       rw [hs] at hst
-      exact AllClean_cons (clean_start_line env hst) AllClean_nil
+      exact AllClean_cons (clean_start_line st) AllClean_nil
     · exact AllClean_nil
   · split
     · exact AllClean_cons (by decide) (AllClean_map (fun r hr => clean_rendition_line (hrs r hr)))
     · exact AllClean_nil
   · exact AllClean_cons (by decide) AllClean_nil
-  · exact AllClean_flatMap2 (fun v hv => ⟨clean_variant_line env3 (hvs v hv), clean_uri (hvs v hv)⟩)
+  · exact AllClean_flatMap2 (fun v hv => ⟨clean_variant_line (hvs v hv), clean_uri (hvs v hv)⟩)
 
 
 /-! ## The round trip -/
@@ -860,7 +854,7 @@ theorem skipHeader_marshal (p : Multivariant) :
 theorem unmarshal_marshal (env : FloatEnvelope) (env3 : FloatEnvelope3) {p : Multivariant} (h : WFMultivariant p) :
     ∃ st' : Option Start, Multivariant.unmarshal p.marshal = .ok { p with start := st' } ∧ StartQuant p.start st' ∧
       (Option.map Start.marshal st' = Option.map Start.marshal p.start) := by
-  have hclean := clean_marshalLines env env3 h
+  have hclean := clean_marshalLines h
   obtain ⟨⟨hv0, hv1⟩, hst, hne, hvs, hrs⟩ := h
   obtain ⟨version, indep, start, variants, renditions⟩ := p
   simp only at hv0 hv1 hst hne hvs hrs
@@ -929,6 +923,471 @@ theorem unmarshal_marshal (env : FloatEnvelope) (env3 : FloatEnvelope3) {p : Mul
       unfold IsQuant5 at hq'2
       have : q' = q := by omega
       rw [hq'1, this, hfmt]
+
+
+/-! ## Panic freedom (C15) -/
+
+/-- `r` is not the panic outcome -/
+def NP {α} (r : Res α) : Prop := r ≠ .error .panic
+
+theorem NP_ok {α} (a : α) : NP (.ok a : Res α) := by simp [NP]
+
+theorem NP_bind {α β} {x : Res α} {f : α → Res β} (hx : NP x) (hf : ∀ a, x = .ok a → NP (f a)) : NP (x >>= f) := by
+  cases x with
+  | error e => simpa [NP, bind, Except.bind] using hx
+  | ok a => simpa [bind, Except.bind] using hf a rfl
+
+theorem NP_of_err {α} {x : Res α} (h : ∀ e, x = .error e → e ≠ .panic) : NP x := by
+  intro hx; exact h _ hx rfl
+
+theorem NP_parseAttrs (v : Str) : NP (parseAttrs v) := parseAttrs_noPanic v
+
+theorem NP_parseUint (b : Nat) (s : Str) : NP (parseUint b s) :=
+  NP_of_err (fun e he => by rw [parseUint_err he]; simp)
+
+theorem NP_parseFloat (s : Str) : NP (parseFloat s) :=
+  NP_of_err (fun e he => by rw [parseFloat_err he]; simp)
+
+theorem NP_durUnmarshal (s : Str) : NP (durUnmarshal s) :=
+  NP_of_err (fun e he => by rw [durUnmarshal_err he]; simp)
+
+theorem NP_start (v : Str) : NP (Start.unmarshal v) := by
+  unfold Start.unmarshal
+  refine NP_bind (NP_parseAttrs v) (fun attrs _ => ?_)
+  refine NP_bind ?_ (fun off _ => ?_)
+  · split
+    · exact NP_durUnmarshal _
+    · exact NP_ok _
+  · split
+    · simp [NP]
+    · exact NP_ok _
+
+theorem NP_rendition (v : Str) : NP (Rendition.unmarshal v) := by
+  unfold Rendition.unmarshal
+  refine NP_bind (NP_parseAttrs v) (fun attrs _ => ?_)
+  refine NP_bind ?_ (fun type _ => ?_)
+  · split
+    · split
+      · exact NP_ok _
+      · simp [NP]
+    · exact NP_ok _
+  · simp only
+    repeat' split
+    all_goals first | exact NP_ok _ | simp [NP]
+
+theorem idx_zero_splitByte (c : Char) (v : Str) : ∃ l, idx (splitByte c v) 0 = .ok l := by
+  cases h : splitByte c v with
+  | nil => exact absurd h (splitByte_ne_nil c v)
+  | cons l ls => exact ⟨l, by simp [idx]⟩
+
+theorem idx_one_splitByte (c : Char) (a b : Str) : ∃ l, idx (splitByte c (a ++ c :: b)) 1 = .ok l := by
+  have := splitByte_length_ge_two c a b
+  cases h : splitByte c (a ++ c :: b) with
+  | nil => rw [h] at this; simp at this
+  | cons l ls =>
+    cases ls with
+    | nil => rw [h] at this; simp at this
+    | cons l2 ls' => exact ⟨l2, by simp [idx]⟩
+
+theorem NP_emptyOrComment (l : Str) : NP (emptyOrComment l) := by
+  unfold emptyOrComment
+  cases l with
+  | nil => simp [NP, pure, Except.pure]
+  | cons c cs => simp [NP, byteAt, bind, Except.bind, pure, Except.pure]
+
+/-- `lines[1]` exists because the caller joined two lines with "\n" -/
+theorem NP_variant (a b : Str) : NP (Variant.unmarshal (a ++ '\n' :: b)) := by
+  unfold Variant.unmarshal
+  obtain ⟨l0, h0⟩ := idx_zero_splitByte '\n' (a ++ '\n' :: b)
+  obtain ⟨l1, h1⟩ := idx_one_splitByte '\n' a b
+  simp only [h0, h1]
+  refine NP_bind (NP_ok _) (fun _ _ => ?_)
+  refine NP_bind (NP_parseAttrs _) (fun attrs _ => ?_)
+  refine NP_bind ?_ (fun bw _ => ?_)
+  · split
+    · exact NP_bind (NP_parseUint _ _) (fun _ _ => NP_ok _)
+    · exact NP_ok _
+  refine NP_bind ?_ (fun ab _ => ?_)
+  · split
+    · exact NP_bind (NP_parseUint _ _) (fun _ _ => NP_ok _)
+    · exact NP_ok _
+  refine NP_bind ?_ (fun fr _ => ?_)
+  · split
+    · exact NP_bind (NP_parseFloat _) (fun _ _ => NP_ok _)
+    · exact NP_ok _
+  refine NP_bind (NP_ok _) (fun _ _ => ?_)
+  refine NP_bind (NP_emptyOrComment _) (fun bad _ => ?_)
+  split
+  · simp [NP]
+  · exact NP_ok _
+
+theorem wrapIn_ne_panic {ctx : String} {e : Err} (h : e ≠ .panic) : e.wrapIn ctx ≠ .panic := by
+  cases e <;> simp_all [Err.wrapIn]
+
+theorem NP_sliceFrom_prefix {p l : Str} (h : hasPrefix p l = true) : ∃ x, sliceFrom l p.length = .ok x := by
+  have := hasPrefix_length h
+  exact ⟨l.drop p.length, by simp [sliceFrom, this]⟩
+
+theorem NP_variantStep (m : Multivariant) {l : Str} (l2 : Str) (h : isStreamInf l = true) : NP (variantStep m l l2) := by
+  unfold isStreamInf at h
+  split at h
+  · rename_i p hd
+    have hp := dispatch_streamInf_prefix hd
+    subst hp
+    obtain ⟨x, hx⟩ := NP_sliceFrom_prefix (dispatch_some hd).2
+    unfold variantStep
+    rw [hx]
+    simp only [bind, Except.bind]
+    have := NP_variant x l2
+    cases hv : Variant.unmarshal (x ++ '\n' :: l2) with
+    | error e =>
+      simp only
+      intro he
+      have hne : e ≠ .panic := by intro e'; apply this; rw [hv, e']
+      exact wrapIn_ne_panic hne (Except.error.inj he)
+    | ok v => exact NP_ok _
+  · cases h
+
+theorem NP_tagStep (m : Multivariant) {l : Str} (h : isStreamInf l = false) : NP (tagStep m l) := by
+  unfold tagStep lineStep
+  cases hd : dispatch l with
+  | none => simp [NP, Except.map]
+  | some pt =>
+    obtain ⟨p, t⟩ := pt
+    obtain ⟨x, hx⟩ := NP_sliceFrom_prefix (dispatch_some hd).2
+    cases t with
+    | streamInf => simp [isStreamInf, hd] at h
+    | independentSegments => simp [NP, Except.map]
+    | version =>
+      simp only [hx, bind, Except.bind]
+      cases hp : parseUint 31 x with
+      | error e => rw [parseUint_err hp]; simp [NP, Except.map]
+      | ok n =>
+        simp only
+        split <;> simp [NP, Except.map, pure, Except.pure]
+    | start =>
+      simp only [hx, bind, Except.bind]
+      have := NP_start x
+      cases hs : Start.unmarshal x with
+      | error e =>
+        simp only [Except.map]
+        intro he
+        have hne : e ≠ .panic := by intro e'; apply this; rw [hs, e']
+        exact hne (Except.error.inj he)
+      | ok st => simp [NP, Except.map, pure, Except.pure]
+    | media =>
+      simp only [hx, bind, Except.bind]
+      have := NP_rendition x
+      cases hs : Rendition.unmarshal x with
+      | error e =>
+        simp only [Except.map]
+        intro he
+        have hne : e ≠ .panic := by intro e'; apply this; rw [hs, e']
+        exact wrapIn_ne_panic hne (Except.error.inj he)
+      | ok r => simp [NP, Except.map, pure, Except.pure]
+
+theorem NP_runLines (n : Nat) : ∀ (m : Multivariant) (ls : List Str), ls.length ≤ n → NP (runLines m ls) := by
+  induction n with
+  | zero =>
+    intro m ls h
+    have : ls = [] := by cases ls with | nil => rfl | cons _ _ => simp at h
+    subst this; exact NP_ok _
+  | succ n ih =>
+    intro m ls h
+    match ls with
+    | [] => exact NP_ok _
+    | [l] =>
+      simp only [runLines]
+      split
+      · rename_i hs; exact NP_variantStep m [] hs
+      · rename_i hs; exact NP_tagStep m (by simpa using hs)
+    | l :: l2 :: ls' =>
+      simp only [runLines]
+      split
+      · rename_i hs
+        have := NP_variantStep m l2 hs
+        cases hv : variantStep m l l2 with
+        | error e => simp only [Except.bind]; rw [hv] at this; exact this
+        | ok m' => simp only [Except.bind]; exact ih m' ls' (by simp at h; omega)
+      · rename_i hs
+        have := NP_tagStep m (l := l) (by simpa using hs)
+        cases hv : tagStep m l with
+        | error e => simp only [Except.bind]; rw [hv] at this; exact this
+        | ok m' => simp only [Except.bind]; exact ih m' (l2 :: ls') (by simp at h ⊢; omega)
+
+/-- `Multivariant.Unmarshal` never panics, whatever the input. -/
+theorem unmarshal_noPanic (s : Str) : Multivariant.unmarshal s ≠ .error .panic := by
+  unfold Multivariant.unmarshal skipHeader
+  rw [readLine_eq]
+  simp only [bind, Except.bind]
+  split
+  · rename_i e he
+    split at he
+    · cases he; simp
+    · cases he
+  · rename_i s' hs
+    rw [unmarshalLoop_eq_runLines _ _ _ (Nat.le_refl _)]
+    have := NP_runLines _ {} (textLines s') (Nat.le_refl _)
+    cases hr : runLines {} (textLines s') with
+    | error e => simp only; rw [hr] at this; exact this
+    | ok m =>
+      simp only
+      split <;> simp [pure, Except.pure]
+
+
+/-! ## Structure of successfully decoded values (C15) -/
+
+theorem bind_eq_ok {α β} {x : Res α} {f : α → Res β} {b : β} (h : (x >>= f) = .ok b) :
+    ∃ a, x = .ok a ∧ f a = .ok b := by
+  cases x with
+  | error e => simp [bind, Except.bind] at h
+  | ok a => exact ⟨a, rfl, by simpa [bind, Except.bind] using h⟩
+
+theorem Start.unmarshal_ok {v : Str} {t : Start} (h : Start.unmarshal v = .ok t) : t.timeOffset ≠ 0 := by
+  unfold Start.unmarshal at h
+  obtain ⟨attrs, _, h⟩ := bind_eq_ok h
+  obtain ⟨off, _, h⟩ := bind_eq_ok h
+  split at h
+  · cases h
+  · rename_i hne
+    simp [pure, Except.pure] at h
+    rw [← h]; exact hne
+
+theorem emptyOrComment_false {l : Str} (h : emptyOrComment l = .ok false) : l ≠ [] ∧ l.head? ≠ some '#' := by
+  cases l with
+  | nil => simp [emptyOrComment, pure, Except.pure] at h
+  | cons c cs =>
+    simp [emptyOrComment, byteAt, bind, Except.bind, pure, Except.pure] at h
+    simp [h]
+
+theorem Variant.unmarshal_ok {va : Str} {v : Variant} (h : Variant.unmarshal va = .ok v) :
+    v.uri ≠ [] ∧ v.uri.head? ≠ some '#' := by
+  unfold Variant.unmarshal at h
+  obtain ⟨l0, _, h⟩ := bind_eq_ok h
+  obtain ⟨attrs, _, h⟩ := bind_eq_ok h
+  obtain ⟨bw, _, h⟩ := bind_eq_ok h
+  obtain ⟨ab, _, h⟩ := bind_eq_ok h
+  obtain ⟨fr, _, h⟩ := bind_eq_ok h
+  obtain ⟨l1, _, h⟩ := bind_eq_ok h
+  obtain ⟨bad, hbad, h⟩ := bind_eq_ok h
+  cases bad with
+  | true => simp at h
+  | false =>
+    simp [pure, Except.pure] at h
+    rw [← h]
+    exact emptyOrComment_false hbad
+
+/-- the validation rules of `MultivariantRendition.unmarshal` -/
+def RenditionOK (r : Rendition) : Prop :=
+  r.type ∈ renditionTypes ∧ r.groupID ≠ [] ∧
+  (r.type = typeClosedCaptions → r.uri = none ∧ r.inStreamID ≠ none) ∧
+  (r.type = typeSubtitles → r.uri ≠ none) ∧
+  (r.type ≠ typeClosedCaptions → r.inStreamID = none) ∧
+  (r.channels ≠ none → r.type = typeAudio)
+
+theorem Rendition.unmarshal_ok {x : Str} {r : Rendition} (h : Rendition.unmarshal x = .ok r) : RenditionOK r := by
+  unfold Rendition.unmarshal at h
+  obtain ⟨attrs, _, h⟩ := bind_eq_ok h
+  obtain ⟨type, htype, h⟩ := bind_eq_ok h
+  simp only at h
+  split at h
+  · cases h
+  rename_i hne
+  split at h
+  · cases h
+  rename_i hg
+  split at h
+  · cases h
+  rename_i h1
+  split at h
+  · cases h
+  rename_i h2
+  split at h
+  · cases h
+  rename_i h3
+  split at h
+  · cases h
+  rename_i h4
+  split at h
+  · cases h
+  rename_i h5
+  simp [pure, Except.pure] at h
+  have hmem : type ∈ renditionTypes := by
+    split at htype
+    · split at htype
+      · rename_i hc; simp [pure, Except.pure] at htype; rw [← htype]; simpa using hc
+      · cases htype
+    · simp [pure, Except.pure] at htype; exact absurd (htype.symm) (by intro e; exact hne e.symm)
+  rw [← h]
+  refine ⟨hmem, hg, ?_, ?_, ?_, ?_⟩
+  · intro hcc
+    have hcc' : type = typeClosedCaptions := hcc
+    constructor
+    · show attrs.get kURI = none
+      cases hu : attrs.get kURI with
+      | none => rfl
+      | some u => exact absurd ⟨hcc', by simp [hu]⟩ h1
+    · show attrs.get kInstreamID ≠ none
+      intro hi
+      exact h3 ⟨hcc', by simp [hi]⟩
+  · intro hs
+    have hs' : type = typeSubtitles := hs
+    show attrs.get kURI ≠ none
+    intro hu
+    exact h2 ⟨hs', by simp [hu]⟩
+  · intro hncc
+    have hncc' : type ≠ typeClosedCaptions := hncc
+    show attrs.get kInstreamID = none
+    cases hi : attrs.get kInstreamID with
+    | none => rfl
+    | some i => exact absurd ⟨hncc', by simp [hi]⟩ h4
+  · intro hc
+    have hc' : attrs.get kChannels ≠ none := hc
+    show type = typeAudio
+    cases hch : attrs.get kChannels with
+    | none => exact absurd hch hc'
+    | some c =>
+      by_cases ha : type = typeAudio
+      · exact ha
+      · exact absurd ⟨by simp [hch], ha⟩ h5
+
+
+/-- what every value built by the decoder loop satisfies -/
+def GoodM (m : Multivariant) : Prop :=
+  (0 ≤ m.version ∧ m.version ≤ 10) ∧ OptAll m.start (fun t => t.timeOffset ≠ 0) ∧
+  (∀ v ∈ m.variants, v.uri ≠ [] ∧ v.uri.head? ≠ some '#') ∧ (∀ r ∈ m.renditions, RenditionOK r)
+
+theorem GoodM_empty : GoodM {} := by
+  refine ⟨by decide, trivial, ?_, ?_⟩ <;> intro x hx <;> cases hx
+
+theorem map_eq_ok {α β} {x : Res α} {f : α → β} {b : β} (h : x.map f = .ok b) : ∃ a, x = .ok a ∧ f a = b := by
+  cases x with
+  | error e => simp [Except.map] at h
+  | ok a => exact ⟨a, rfl, by simpa [Except.map] using h⟩
+
+theorem GoodM_tagStep {m m' : Multivariant} {l : Str} (hg : GoodM m) (h : tagStep m l = .ok m') : GoodM m' := by
+  obtain ⟨hv, hs, hvs, hrs⟩ := hg
+  unfold tagStep at h
+  obtain ⟨pr, hls, hm'⟩ := map_eq_ok h
+  subst hm'
+  unfold lineStep at hls
+  cases hd : dispatch l with
+  | none => rw [hd] at hls; cases hls; exact ⟨hv, hs, hvs, hrs⟩
+  | some pt =>
+    obtain ⟨p, t⟩ := pt
+    rw [hd] at hls
+    cases t with
+    | independentSegments => cases hls; exact ⟨hv, hs, hvs, hrs⟩
+    | version =>
+      simp only at hls
+      obtain ⟨x, _, hls⟩ := bind_eq_ok hls
+      obtain ⟨n, _, hls⟩ := bind_eq_ok hls
+      split at hls
+      · cases hls
+      · rename_i hle
+        simp [pure, Except.pure] at hls
+        rw [← hls]
+        refine ⟨?_, hs, hvs, hrs⟩
+        simp only [maxSupportedVersion] at hle
+        simp only
+        omega
+    | start =>
+      simp only at hls
+      obtain ⟨x, _, hls⟩ := bind_eq_ok hls
+      obtain ⟨st, hst, hls⟩ := bind_eq_ok hls
+      simp [pure, Except.pure] at hls
+      rw [← hls]
+      exact ⟨hv, Start.unmarshal_ok hst, hvs, hrs⟩
+    | streamInf =>
+      simp only at hls
+      obtain ⟨x, _, hls⟩ := bind_eq_ok hls
+      obtain ⟨pr2, _, hls⟩ := bind_eq_ok hls
+      split at hls
+      · cases hls
+      · rename_i v hvok
+        simp [pure, Except.pure] at hls
+        rw [← hls]
+        refine ⟨hv, hs, ?_, hrs⟩
+        intro y hy
+        simp only [List.mem_append, List.mem_singleton] at hy
+        rcases hy with hy | hy
+        · exact hvs y hy
+        · rw [hy]; exact Variant.unmarshal_ok hvok
+    | media =>
+      simp only at hls
+      obtain ⟨x, _, hls⟩ := bind_eq_ok hls
+      split at hls
+      · cases hls
+      · rename_i r hrok
+        simp [pure, Except.pure] at hls
+        rw [← hls]
+        refine ⟨hv, hs, hvs, ?_⟩
+        intro y hy
+        simp only [List.mem_append, List.mem_singleton] at hy
+        rcases hy with hy | hy
+        · exact hrs y hy
+        · rw [hy]; exact Rendition.unmarshal_ok hrok
+
+theorem GoodM_variantStep {m m' : Multivariant} {l l2 : Str} (hg : GoodM m) (h : variantStep m l l2 = .ok m') :
+    GoodM m' ∧ m'.variants ≠ [] := by
+  obtain ⟨hv, hs, hvs, hrs⟩ := hg
+  unfold variantStep at h
+  obtain ⟨x, _, h⟩ := bind_eq_ok h
+  split at h
+  · cases h
+  · rename_i v hvok
+    simp [pure, Except.pure] at h
+    rw [← h]
+    refine ⟨⟨hv, hs, ?_, hrs⟩, by simp⟩
+    intro y hy
+    simp only [List.mem_append, List.mem_singleton] at hy
+    rcases hy with hy | hy
+    · exact hvs y hy
+    · rw [hy]; exact Variant.unmarshal_ok hvok
+
+theorem GoodM_runLines (n : Nat) : ∀ (m m' : Multivariant) (ls : List Str), ls.length ≤ n → GoodM m →
+    runLines m ls = .ok m' → GoodM m' := by
+  induction n with
+  | zero =>
+    intro m m' ls h hg hr
+    have : ls = [] := by cases ls with | nil => rfl | cons _ _ => simp at h
+    subst this; simp [runLines] at hr; rw [← hr]; exact hg
+  | succ n ih =>
+    intro m m' ls h hg hr
+    match ls with
+    | [] => simp [runLines] at hr; rw [← hr]; exact hg
+    | [l] =>
+      simp only [runLines] at hr
+      split at hr
+      · exact (GoodM_variantStep hg hr).1
+      · exact GoodM_tagStep hg hr
+    | l :: l2 :: ls' =>
+      simp only [runLines] at hr
+      split at hr
+      · cases hv : variantStep m l l2 with
+        | error e => rw [hv] at hr; simp [Except.bind] at hr
+        | ok m1 =>
+          rw [hv] at hr; simp only [Except.bind] at hr
+          exact ih m1 m' ls' (by simp at h; omega) (GoodM_variantStep hg hv).1 hr
+      · cases hv : tagStep m l with
+        | error e => rw [hv] at hr; simp [Except.bind] at hr
+        | ok m1 =>
+          rw [hv] at hr; simp only [Except.bind] at hr
+          exact ih m1 m' (l2 :: ls') (by simp at h ⊢; omega) (GoodM_tagStep hg hv) hr
+
+/-- C15: what callers may rely on after a successful `Multivariant.Unmarshal`. -/
+theorem unmarshal_ok_structure {s : Str} {p : Multivariant} (h : Multivariant.unmarshal s = .ok p) :
+    p.variants ≠ [] ∧ GoodM p := by
+  unfold Multivariant.unmarshal at h
+  obtain ⟨s', _, h⟩ := bind_eq_ok h
+  obtain ⟨m, hm, h⟩ := bind_eq_ok h
+  split at h
+  · cases h
+  · rename_i hlen
+    simp [pure, Except.pure] at h
+    subst h
+    rw [unmarshalLoop_eq_runLines _ _ _ (Nat.le_refl _)] at hm
+    exact ⟨by intro e; apply hlen; simp [e], GoodM_runLines _ _ _ _ (Nat.le_refl _) GoodM_empty hm⟩
 
 
 end Hls.Playlist
